@@ -16,7 +16,7 @@ def run(cmd, **kw):
 
 def clean():
     run(["git", "checkout", "--", "."])
-    for f in ("tests/demo1.rs", "tests/demo2.rs", "tests/demo3.rs"):
+    for f in ("tests/demo1.rs", "tests/demo2.rs", "tests/demo3.rs", "tests/demo4.rs"):
         try:
             os.remove(os.path.join(wt, f))
         except FileNotFoundError:
